@@ -157,6 +157,15 @@ def analyze(ctx, want):
             grp = ins[0][3][2]
             ok2 = "item@" in S.fstr(cls) and S.mentions(grp, lambda x: x == fg[0][4]) if fg else False
             ob("C03.c", "signature-entry-is-(class, group-of-target)", ok and ok2, "insert(%s, %s)" % (S.fstr(cls)[:40], S.fstr(grp)[:60]), bt.loc())
+    # nothing but insert() may touch the signature: the returned value is the accumulated list
+    for p in ret_paths(paths):
+        r = p.end[1]
+        apps = [x[1] for x in S.subterms(r) if x[0] == "app"]
+        other = [a for a in apps if not re.search(r"TransitionsToPartitionGroups::(new|with_capacity|insert)$|BTreeMap::<.*>::(len|get)|mut:TransitionsToPartitionGroups::insert|find_group|Option::<.*>::unwrap|Iterator>::next|IntoIterator|ids::", a) and not a.startswith("mut:Minimizer::trace")]
+        other = [a for a in other if re.search(r"dedup|sort|retain|truncate|remove|drain|clear|pop|reverse|swap", a)]
+        ob("C03.c", "signature-not-post-processed", not other, "operations applied to the signature after it was collected: %s" % [M.short_name(a) for a in other], bt.loc())
+    muts = [M.call_name(t) for bb, t in bt.calls(r"Vec::<.*>::(dedup|dedup_by|dedup_by_key|sort|sort_by|sort_by_key|sort_unstable|retain|truncate|remove|drain|clear|pop|reverse)|<impl \[.*\]>::(sort|reverse)")]
+    ob("C03.c", "signature-vector-only-grows", not muts, "vector mutations in build_transitions_to_partition_group: %s" % [M.short_name(m) for m in muts], bt.loc())
     its = [M.call_name(t) for bb, t in bt.calls(ADAPTERS)]
     brk = []
     ob("C03.c", "all-transitions-and-targets-enter-the-signature", body >= 1 and not its, "%d body paths; adapters %s" % (body, its), bt.loc())
